@@ -1663,3 +1663,79 @@ Proof.
 Qed.
 
 End groupthm.
+
+(** ** Part 3: the two halves of setLocalHead *)
+
+Lemma slh_split s h :
+  set_local_head s h = let '(s1, need) := slh_check s h in if need then slh_add s1 h else s1.
+Proof.
+  unfold set_local_head, slh_check, slh_add. cbn.
+  destruct (store_append (s_store s) h) as [sh|]; cbn; [|reflexivity].
+  destruct (h_height h <=? h_height sh); reflexivity.
+Qed.
+
+Section park.
+Variable p : params.
+Variable tv : hdr -> hdr -> tvres.
+
+(** a schedule without parking is a schedule of the thread machine *)
+Lemma prun_atomic l : forall c,
+  prun p tv (PState c None []) (map PEv l) =
+  let '(c', tr) := crun p tv c l in (PState c' None [], tr).
+Proof.
+  induction l as [|e l IH]; intros c; cbn [map prun crun]; [reflexivity|].
+  assert (Hb : blocked (PState c None []) e = false) by (unfold blocked; destruct e; reflexivity).
+  unfold pstep. rewrite Hb. cbn [p_c p_g p_t].
+  destruct (cstep p tv c e) as [c1 o1]. rewrite IH. destruct (crun p tv c1 l) as [c2 o2]. reflexivity.
+Qed.
+
+(** parking and resuming at once is the atomic gossip (direct accept, no tail change) *)
+Lemma gossip_park_resume c h sbj : local_head (c_s c) = Some sbj ->
+  Verify (s_now (c_s c)) (p_drift p) tv sbj h = None ->
+  fst (prun p tv (PState c None []) [PGossipA h; PGossipB (TOk None)]) =
+  PState (set_s c (fst (gossip p tv (c_s c) h ([], false) (TOk None)))) None [].
+Proof.
+  intros Hl Hv. cbn [prun pstep p_c p_g p_t]. rewrite Hl, Hv.
+  unfold gossip, incoming. rewrite Hl, Hv. cbn [fst snd tail_apply].
+  rewrite (slh_split (c_s c) h). destruct (slh_check (c_s c) h) as [s1 need].
+  destruct need; cbn; reflexivity.
+Qed.
+
+End park.
+
+(** *** the full monotonicity statement is FALSE once setLocalHead is split:
+    a gossip head 19 is verified against 17 and parks before pending.Add;
+    caller 1 learns 20 (pending = 20); the sync loop stores up to 20 and empties
+    pending; caller 2 gets a failing answer and returns its subjective head 20;
+    the parked call resumes: pending.Add(19) finds pending empty; caller 3,
+    which started after caller 2 returned, returns 19. *)
+Definition rf_p : params := Params 1000000 10 0 10 2.
+Definition rf_h (n : N) : hdr := Hdr false 1 n 900 n (n - 1) true.
+Definition rf_tv (t u : hdr) : tvres := TVOk.
+Definition rf_s : sstate := SState (Some (rf_h 17)) None 1000.
+Definition rf_nob : bifres := ([], false).
+Definition rf_sched1 : list pev :=
+  [PGossipA (rf_h 19);
+   PEv (CStep 1 ICall); PEv (CStep 1 INone); PEv (CStep 1 (IAns (GOk (rf_h 20)))); PEv (CStep 1 (IBif rf_nob));
+   PEv CSyncDone;
+   PEv (CStep 2 ICall); PEv (CStep 2 INone); PEv (CStep 2 (IAns GFail)); PEv (CStep 2 (IBif rf_nob))].
+Definition rf_sched2 : list pev :=
+  [PGossipB (TOk None);
+   PEv (CStep 3 ICall); PEv (CStep 3 INone); PEv (CStep 3 (IAns GFail)); PEv (CStep 3 (IBif rf_nob))].
+
+Lemma monotone_refuted :
+  exists p tv s sched1 sched2 p1 t1 p2 t2 a b va vb,
+    prun p tv (pinit s) sched1 = (p1, t1) /\ prun p tv p1 sched2 = (p2, t2) /\
+    In (ORet a (ROk va)) t1 /\ c_pc (p_c p1) b = PIdle /\ parked_t (p_t p1) b = false /\
+    In (ORet b (ROk vb)) t2 /\ h_height vb < h_height va.
+Proof.
+  exists rf_p, rf_tv, rf_s, rf_sched1, rf_sched2.
+  destruct (prun rf_p rf_tv (pinit rf_s) rf_sched1) as [p1 t1] eqn:H1.
+  destruct (prun rf_p rf_tv p1 rf_sched2) as [p2 t2] eqn:H2.
+  exists p1, t1, p2, t2, 2%nat, 3%nat, (rf_h 20), (rf_h 19).
+  vm_compute in H1. injection H1 as <- <-.
+  vm_compute in H2. injection H2 as <- <-.
+  repeat split; try reflexivity.
+  - cbn. auto 10.
+  - cbn. auto 10.
+Qed.
